@@ -1480,6 +1480,7 @@ class NiftiWrapper(object):
             trans_update = header.get_best_affine()[:3, dim]
 
         split_hdr = header.copy()
+        split_aff = header.get_best_affine()
         slices = [slice(None)] * len(shape)
         for idx in range(shape[dim]):
             #Grab the split data, get rid of trailing singular dimensions
@@ -1494,18 +1495,19 @@ class NiftiWrapper(object):
 
             #Update the translation in any affines if needed
             if not trans_update is None and idx != 0:
-                qform = split_hdr.get_qform()
+                split_aff[:3, 3] += trans_update
+                qform, qform_code = split_hdr.get_qform(coded=True)
                 if not qform is None:
                     qform[:3, 3] += trans_update
-                    split_hdr.set_qform(qform)
-                sform = split_hdr.get_sform()
+                    split_hdr.set_qform(qform, qform_code)
+                sform, sform_code = split_hdr.get_sform(coded=True)
                 if not sform is None:
                     sform[:3, 3] += trans_update
-                    split_hdr.set_sform(sform)
+                    split_hdr.set_sform(sform, sform_code)
 
             #Create the initial Nifti1Image object
             split_nii = nb.Nifti1Image(split_data,
-                                       split_hdr.get_best_affine(),
+                                       split_aff.copy(),
                                        header=split_hdr)
 
             #Replace the meta data with the appropriate subset
